@@ -979,6 +979,9 @@ type execCase struct {
 	Query   string                 `json:"query"`
 	Inputs  map[string]interface{} `json:"inputs"`
 	NumMode string                 `json:"numMode"`
+	// entry point / repetition: "" = field of the query root; "list" = field of the items of Q.items (3 invocations of the
+	// same planned field); "subscription" = field of the subscription root (Subscribe resolver, then Resolve per event)
+	Under string `json:"under,omitempty"`
 	// a second variable assignment, executed on the SAME plan (PlanQuery once, ExecutePlan per assignment)
 	Inputs2 map[string]interface{} `json:"inputs2,omitempty"`
 	// literal/variable agreement: the same conformant value once through a variable (Query/Inputs), once inline
@@ -1332,9 +1335,13 @@ func kindOf(s *gq.SchemaDesc, name string) string {
 // ---------------------------------------------------------------- end to end
 
 type recorded struct {
-	calls int
-	args  interface{}
-	vars  interface{}
+	calls    int           // Resolve invocations of the observed field
+	args     interface{}   // first invocation
+	vars     interface{}
+	all      []interface{} // snapshot of p.Args at every invocation, taken before the resolver mutates it
+	subCalls int           // Subscribe resolver
+	subArgs  interface{}
+	subVars  interface{}
 }
 
 func withField(s *gq.SchemaDesc, f gq.FieldDesc) *gq.SchemaDesc {
@@ -1350,16 +1357,123 @@ func withField(s *gq.SchemaDesc, f gq.FieldDesc) *gq.SchemaDesc {
 	return &c
 }
 
-func (h *harness) doQuery(c execCase, query string) (rec *recorded, res *graphql.Result, valid bool, panicked interface{}) {
-	rec = &recorded{}
+// mutateInPlace is what a careless resolver may do with what it received: overwrite scalars, add a key to every map,
+// reverse every list — in place, at every depth. The next invocation must still receive the coerced value.
+func mutateInPlace(v interface{}) {
+	scalar := func(e interface{}) bool {
+		switch e.(type) {
+		case map[string]interface{}, []interface{}:
+			return false
+		}
+		return true
+	}
+	switch x := v.(type) {
+	case map[string]interface{}:
+		for k, e := range x {
+			mutateInPlace(e)
+			if scalar(e) {
+				x[k] = "MUTATED"
+			}
+		}
+		x["__mutated"] = true
+	case []interface{}:
+		for i, e := range x {
+			mutateInPlace(e)
+			if scalar(e) {
+				x[i] = "MUTATED"
+			}
+		}
+		for i, j := 0, len(x)-1; i < j; i, j = i+1, j-1 {
+			x[i], x[j] = x[j], x[i]
+		}
+	}
+}
+
+// cfParent: the object type that carries the observed field `cf`
+func cfParent(c execCase) string {
+	switch c.Under {
+	case "list":
+		return "CItem"
+	case "subscription":
+		return "CSub"
+	}
+	return c.Schema.Query
+}
+
+func expectedCalls(c execCase) int {
+	if c.Under == "list" {
+		return 3
+	}
+	return 1
+}
+
+// schemaUnder places cf on the query root, on the item type of the list field Q.items, or on a subscription root.
+func schemaUnder(s *gq.SchemaDesc, fd gq.FieldDesc, under string) *gq.SchemaDesc {
+	switch under {
+	case "list":
+		c := *s
+		c.Types = append(append([]gq.TypeDesc{}, s.Types...), gq.TypeDesc{Kind: "OBJECT", Name: "CItem", Fields: []gq.FieldDesc{fd}})
+		return withField(&c, gq.FieldDesc{Name: "items", Type: "[CItem]"})
+	case "subscription":
+		c := *s
+		c.Types = append(append([]gq.TypeDesc{}, s.Types...), gq.TypeDesc{Kind: "OBJECT", Name: "CSub", Fields: []gq.FieldDesc{fd}})
+		name := "CSub"
+		c.Subscription = &name
+		return &c
+	}
+	return withField(s, fd)
+}
+
+// queryUnder rewrites `[query(…) ]{ cf(…) }` for the entry point
+func queryUnder(q, under string) string {
+	i := strings.Index(q, "{ cf")
+	if q == "" || i < 0 {
+		return q
+	}
+	head, sel := q[:i], q[i:]
+	switch under {
+	case "list":
+		return head + "{ items " + sel + " }"
+	case "subscription":
+		return "subscription" + strings.TrimPrefix(head, "query") + " " + sel
+	}
+	return q
+}
+
+// buildRec builds the real schema with recording AND mutating resolvers for cf (Resolve, and Subscribe on a subscription root)
+func (h *harness) buildRec(c execCase) (*gq.Built, *recorded) {
+	rec := &recorded{}
+	parent := cfParent(c)
 	hooks := baseHooks()
 	hooks.Resolve = func(typeName, fieldName string) graphql.FieldResolveFn {
-		if typeName == c.Schema.Query && fieldName == "cf" {
+		if typeName == parent && fieldName == "cf" {
 			return func(p graphql.ResolveParams) (interface{}, error) {
 				rec.calls++
-				rec.args = toWireG(map[string]interface{}(p.Args))
-				rec.vars = toWireG(p.Info.VariableValues)
+				snap := toWireG(map[string]interface{}(p.Args))
+				rec.all = append(rec.all, snap)
+				if rec.calls == 1 {
+					rec.args = snap
+					rec.vars = toWireG(p.Info.VariableValues)
+				}
+				mutateInPlace(map[string]interface{}(p.Args))
 				return "x", nil
+			}
+		}
+		if typeName == c.Schema.Query && fieldName == "items" {
+			return func(p graphql.ResolveParams) (interface{}, error) {
+				return []interface{}{map[string]interface{}{}, map[string]interface{}{}, map[string]interface{}{}}, nil
+			}
+		}
+		return nil
+	}
+	hooks.Subscribe = func(typeName, fieldName string) graphql.FieldResolveFn {
+		if typeName == parent && fieldName == "cf" && c.Under == "subscription" {
+			return func(p graphql.ResolveParams) (interface{}, error) {
+				rec.subCalls++
+				rec.subArgs = toWireG(map[string]interface{}(p.Args))
+				rec.subVars = toWireG(p.Info.VariableValues)
+				mutateInPlace(map[string]interface{}(p.Args))
+				return map[string]interface{}{"event": 1}, nil
 			}
 		}
 		return nil
@@ -1367,6 +1481,28 @@ func (h *harness) doQuery(c execCase, query string) (rec *recorded, res *graphql
 	b, err := gq.Build(c.Schema, hooks)
 	if err != nil {
 		h.run.CheckError("schema does not build: " + err.Error())
+		return nil, nil
+	}
+	return b, rec
+}
+
+// request runs the document through the public entry point: graphql.Do, or graphql.Subscribe for a subscription
+func request(c execCase, b *gq.Built, query string, vars map[string]interface{}) *graphql.Result {
+	if c.Under == "subscription" {
+		var first *graphql.Result
+		for r := range graphql.Subscribe(graphql.Params{Schema: b.Schema, RequestString: query, VariableValues: vars}) {
+			if first == nil {
+				first = r
+			}
+		}
+		return first
+	}
+	return graphql.Do(graphql.Params{Schema: b.Schema, RequestString: query, VariableValues: vars})
+}
+
+func (h *harness) doQuery(c execCase, query string) (rec *recorded, res *graphql.Result, valid bool, panicked interface{}) {
+	b, rec := h.buildRec(c)
+	if b == nil {
 		return nil, nil, false, nil
 	}
 	doc, err := parser.Parse(parser.ParseParams{Source: query})
@@ -1375,7 +1511,7 @@ func (h *harness) doQuery(c execCase, query string) (rec *recorded, res *graphql
 	}
 	panicked = guard(func() {
 		valid = graphql.ValidateDocument(&b.Schema, doc, nil).IsValid
-		res = graphql.Do(graphql.Params{Schema: b.Schema, RequestString: query, VariableValues: goInputs(c.Schema, doc, c.Inputs, c.NumMode)})
+		res = request(c, b, query, goInputs(c.Schema, doc, c.Inputs, c.NumMode))
 	})
 	return rec, res, valid, panicked
 }
@@ -1397,35 +1533,67 @@ func (h *harness) askExec(c execCase, doc *ast.Document, inputs map[string]inter
 	return m, raw, m.Vars != nil && m.SpecVars != nil
 }
 
-// planTwice plans the (valid) document once and executes the SAME plan under several variable assignments;
-// every execution must hand the resolver the model's getArgumentValues for that assignment (and S's, where it applies).
+// checkInvocations: every invocation of the observed field received the model's argument map (and S's where it applies)
+func checkInvocations(c execCase, rec *recorded, m execResp, checkVars bool, fail func(string)) bool {
+	if rec.calls != expectedCalls(c) {
+		fail(fmt.Sprintf("variables coercible (model) but the resolver ran %d times, expected %d", rec.calls, expectedCalls(c)))
+		return false
+	}
+	if checkVars && hx.Canon(rec.vars) != canonM(m.Vars.Val) {
+		fail("Info.VariableValues differs from the model's getVariableValues")
+		return false
+	}
+	for i, snap := range rec.all {
+		if hx.Canon(snap) != canonM(m.Args) {
+			if i == 0 {
+				fail("p.Args differs from the model's getArgumentValues")
+			} else {
+				fail(fmt.Sprintf("invocation #%d of the same field received different arguments than the model's getArgumentValues (an earlier invocation changed what it received in place: coerced argument values are shared between invocations)", i+1))
+			}
+			return false
+		}
+	}
+	if m.LitsValid && m.VarsProvided && m.SpecArgs != nil && m.SpecArgs.Ok && hx.Canon(rec.args) != canonM(m.SpecArgs.Val) {
+		fail("p.Args differs from the specification's CoerceArgumentValues")
+		return false
+	}
+	return true
+}
+
+func mergeArgs(a, b map[string]interface{}) map[string]interface{} {
+	out := map[string]interface{}{}
+	for k, v := range a {
+		out[k] = v
+	}
+	for k, v := range b {
+		out[k] = v
+	}
+	return out
+}
+
+// planTwice plans the (valid) document once and executes the SAME plan under several variable assignments (and serves it
+// through a PlanCache, plain and normalising, miss then hit); every invocation must receive the model's
+// getArgumentValues for that assignment although the resolvers mutate what they receive.
 func (h *harness) planTwice(c execCase, doc *ast.Document) {
 	run := h.run
-	rec := &recorded{}
-	hooks := baseHooks()
-	hooks.Resolve = func(typeName, fieldName string) graphql.FieldResolveFn {
-		if typeName == c.Schema.Query && fieldName == "cf" {
-			return func(p graphql.ResolveParams) (interface{}, error) {
-				rec.calls++
-				rec.args = toWireG(map[string]interface{}(p.Args))
-				rec.vars = toWireG(p.Info.VariableValues)
-				return "x", nil
-			}
-		}
-		return nil
-	}
-	b, err := gq.Build(c.Schema, hooks)
-	if err != nil {
-		run.CheckError("schema does not build: " + err.Error())
+	b, rec := h.buildRec(c)
+	if b == nil {
 		return
 	}
 	var plan *graphql.Plan
+	var err error
 	if p := guard(func() { plan, err = graphql.PlanQuery(&b.Schema, doc, "") }); p != nil || err != nil || plan == nil {
 		run.Violation("PlanQuery failed or panicked on a valid document", map[string]interface{}{"case": c, "panic": p, "error": fmt.Sprint(err)}, false)
 		return
 	}
 	run.Tag("exec:one-plan-several-assignments")
-	for i, inputs := range []map[string]interface{}{c.Inputs, c.Inputs2, c.Inputs} {
+	second := c.Inputs2
+	if second == nil {
+		second = c.Inputs
+	}
+	var m0 execResp
+	var raw0 map[string]interface{}
+	for i, inputs := range []map[string]interface{}{c.Inputs, second, c.Inputs} {
 		*rec = recorded{}
 		var res *graphql.Result
 		pan := guard(func() {
@@ -1435,7 +1603,10 @@ func (h *harness) planTwice(c execCase, doc *ast.Document) {
 		if !ok {
 			return
 		}
-		real := map[string]interface{}{"execution": i, "inputs": inputs, "calls": rec.calls, "args": rec.args, "variableValues": rec.vars, "panic": pan}
+		if i == 0 {
+			m0, raw0 = m, raw
+		}
+		real := map[string]interface{}{"execution": i, "inputs": inputs, "calls": rec.calls, "invocations": rec.all, "variableValues": rec.vars, "panic": pan}
 		if res != nil {
 			real["dataIsNil"], real["errors"] = res.Data == nil, len(res.Errors)
 		}
@@ -1453,21 +1624,37 @@ func (h *harness) planTwice(c execCase, doc *ast.Document) {
 			}
 			continue
 		}
-		if rec.calls != 1 {
-			fail(fmt.Sprintf("variables coercible (model) but the resolver ran %d times", rec.calls))
+		if !checkInvocations(c, rec, m, true, fail) {
 			return
 		}
-		if hx.Canon(rec.vars) != canonM(m.Vars.Val) {
-			fail("Info.VariableValues differs from the model's getVariableValues")
-			return
-		}
-		if hx.Canon(rec.args) != canonM(m.Args) {
-			fail("p.Args differs from the model's getArgumentValues (plan-time pre-coercion of an argument that depends on variables?)")
-			return
-		}
-		if m.LitsValid && m.VarsProvided && m.SpecArgs != nil && m.SpecArgs.Ok && hx.Canon(rec.args) != canonM(m.SpecArgs.Val) {
-			fail("p.Args differs from the specification's CoerceArgumentValues")
-			return
+	}
+	if !m0.Vars.Ok || (len(c.Query)+len(c.Inputs))%2 == 1 {
+		return // the plan-cache path is exercised for every second document
+	}
+	for _, norm := range []bool{false, true} {
+		pc := graphql.NewPlanCache(graphql.PlanCacheOptions{Normalize: norm})
+		for round := 0; round < 2; round++ {
+			*rec = recorded{}
+			var res *graphql.Result
+			var pr graphql.PlanResult
+			pan := guard(func() {
+				pr = pc.Get(&b.Schema, c.Query, "")
+				if pr.Plan != nil {
+					res = graphql.ExecutePlan(pr.Plan, graphql.ExecuteParams{Schema: b.Schema, Args: mergeArgs(goInputs(c.Schema, doc, c.Inputs, c.NumMode), pr.SynthArgs)})
+				}
+			})
+			real := map[string]interface{}{"planCache": map[string]interface{}{"normalize": norm, "round": round}, "calls": rec.calls, "invocations": rec.all, "panic": pan}
+			fail := func(note string) {
+				run.Violation(fmt.Sprintf("plan cache (normalize=%v, %s): %s", norm, []string{"miss", "hit"}[round], note), map[string]interface{}{"case": c, "real": real, "model": raw0}, false)
+			}
+			if pan != nil || pr.Plan == nil || res == nil {
+				fail("PlanCache.Get gave no plan for a valid document, or execution panicked")
+				return
+			}
+			run.Tag("exec:through-plan-cache")
+			if !checkInvocations(c, rec, m0, !norm, fail) {
+				return
+			}
 		}
 	}
 }
@@ -1483,21 +1670,12 @@ func (h *harness) exec(c execCase, tags map[string]bool) {
 	if rec == nil {
 		return
 	}
-	var m execResp
-	var raw map[string]interface{}
-	if err := h.drv.Ask(map[string]interface{}{"op": "exec", "schema": c.Schema, "doc": astjson.Document(doc), "inputs": c.Inputs}, &raw); err != nil {
-		run.CheckError(err.Error())
+	m, raw, okM := h.askExec(c, doc, c.Inputs)
+	if raw == nil {
 		return
 	}
-	bts, _ := json.Marshal(raw)
-	dd := json.NewDecoder(strings.NewReader(string(bts)))
-	dd.UseNumber()
-	if err := dd.Decode(&m); err != nil {
-		run.CheckError("cannot decode driver answer: " + err.Error())
-		return
-	}
-	m.Args, m.Planned = raw["args"], raw["planned"]
-	real := map[string]interface{}{"valid": valid, "calls": rec.calls, "args": rec.args, "variableValues": rec.vars}
+	real := map[string]interface{}{"valid": valid, "calls": rec.calls, "invocations": rec.all, "variableValues": rec.vars,
+		"subscribeCalls": rec.subCalls, "subscribeArgs": rec.subArgs, "subscribeVariableValues": rec.subVars}
 	if res != nil {
 		real["dataIsNil"] = res.Data == nil
 		real["errors"] = len(res.Errors)
@@ -1512,22 +1690,28 @@ func (h *harness) exec(c execCase, tags map[string]bool) {
 		run.Tag(t)
 	}
 	run.Tag("numbers:" + c.NumMode)
-	key := c.Query + "|" + hx.Canon(c.Inputs) + "|" + c.NumMode + "|" + hx.Canon(c.Schema.Type(c.Schema.Query).Fields[len(c.Schema.Type(c.Schema.Query).Fields)-1])
+	run.Tag("exec:entry=" + map[string]string{"": "query-root", "list": "list-parent-3-invocations", "subscription": "subscription"}[c.Under])
+	pf := c.Schema.Type(cfParent(c)).Fields
+	key := c.Query + "|" + hx.Canon(c.Inputs) + "|" + c.NumMode + "|" + hx.Canon(pf[len(pf)-1])
 	if pan != nil {
 		real["panic"] = pan
-		fail("graphql.Do panicked")
+		fail("the request panicked")
 		return
 	}
 	if !valid {
 		run.Tag("exec:document-invalid")
 		run.Case(key, false, nil)
-		if rec.calls != 0 {
+		if rec.calls != 0 || rec.subCalls != 0 {
 			fail("a resolver ran although validation rejected the document")
 		}
 		return
 	}
-	if c.Inputs2 != nil {
-		h.planTwice(c, doc)
+	if !okM {
+		run.CheckError("driver answer lacks vars")
+		return
+	}
+	if c.Inputs2 != nil || len(c.Query)%3 == 0 {
+		h.planTwice(c, doc) // always with a second assignment; every third document otherwise (same assignment three times)
 		if run.TooManyViolations() {
 			return
 		}
@@ -1537,14 +1721,10 @@ func (h *harness) exec(c execCase, tags map[string]bool) {
 		fail("validation accepted a variable default that isValidLiteralValue (model) rejects")
 		return
 	}
-	if m.Vars == nil || m.SpecVars == nil {
-		run.CheckError("driver answer lacks vars")
-		return
-	}
 	if !m.Vars.Ok {
 		run.Tag("exec:variables-uncoercible")
 		run.Case(key, true, map[string]interface{}{"query": c.Query, "inputs": c.Inputs, "outcome": "variable error"})
-		if res == nil || res.Data != nil || len(res.Errors) < 1 || rec.calls != 0 {
+		if res == nil || res.Data != nil || len(res.Errors) < 1 || rec.calls != 0 || rec.subCalls != 0 {
 			fail("uncoercible variables (model): expected no data, at least one error and no resolver call")
 			return
 		}
@@ -1555,24 +1735,30 @@ func (h *harness) exec(c execCase, tags map[string]bool) {
 	}
 	run.Tag("exec:executed")
 	run.Case(key, true, map[string]interface{}{"query": c.Query, "inputs": c.Inputs, "args": rec.args})
-	if rec.calls != 1 {
-		fail(fmt.Sprintf("variables coercible (model) but the resolver ran %d times (errors: %v)", rec.calls, real["firstError"]))
-		return
-	}
 	if m.StrictInputs && !m.SpecVars.Ok {
 		fail("strictly typed inputs: the request is executed although the specification refuses a variable: " + m.SpecVars.Err)
 		return
 	}
-	if hx.Canon(rec.vars) != canonM(m.Vars.Val) {
-		fail("Info.VariableValues differs from the model's getVariableValues")
+	if c.Under == "subscription" {
+		// the Subscribe resolver is a resolver too: same arguments, same variable values
+		if rec.subCalls != 1 {
+			fail(fmt.Sprintf("the Subscribe resolver ran %d times, expected 1 (errors: %v)", rec.subCalls, real["firstError"]))
+			return
+		}
+		if hx.Canon(rec.subArgs) != canonM(m.Args) {
+			fail("the Subscribe resolver's p.Args differs from the model's getArgumentValues")
+			return
+		}
+		if hx.Canon(rec.subVars) != canonM(m.Vars.Val) {
+			fail("the Subscribe resolver's Info.VariableValues differs from the model's getVariableValues")
+			return
+		}
+	}
+	if !checkInvocations(c, rec, m, true, fail) {
 		return
 	}
 	if m.StrictInputs && hx.Canon(rec.vars) != canonM(m.SpecVars.Val) {
 		fail("strictly typed inputs: Info.VariableValues differs from the specification's CoerceVariableValues")
-		return
-	}
-	if hx.Canon(rec.args) != canonM(m.Args) {
-		fail("p.Args differs from the model's getArgumentValues")
 		return
 	}
 	if canonM(m.Planned) != canonM(m.Args) {
@@ -1588,10 +1774,6 @@ func (h *harness) exec(c execCase, tags map[string]bool) {
 			fail("valid literals and provided variables, but the specification's argument coercion fails")
 			return
 		}
-		if hx.Canon(rec.args) != canonM(m.SpecArgs.Val) {
-			fail("p.Args differs from the specification's CoerceArgumentValues")
-			return
-		}
 	} else {
 		run.Tag("exec:non-null-position-variable-without-value")
 	}
@@ -1599,16 +1781,20 @@ func (h *harness) exec(c execCase, tags map[string]bool) {
 		rec2, _, valid2, pan2 := h.doQuery(c, c.LitQuery)
 		real["literalQueryArgs"], real["literalQueryValid"] = rec2.args, valid2
 		if pan2 != nil {
-			fail("graphql.Do panicked on the inline-literal form")
+			fail("the request panicked on the inline-literal form")
 			return
 		}
 		run.Tag("exec:literal-vs-variable")
-		if !valid2 || rec2.calls != 1 {
+		if !valid2 || rec2.calls != expectedCalls(c) {
 			fail("the inline-literal form of a conformant variable value is not executed")
 			return
 		}
 		if hx.Canon(rec2.args) != hx.Canon(rec.args) {
 			fail("literal_variable_agree (end to end): the same conformant value gives the resolver different arguments as a variable and as an inline literal")
+			return
+		}
+		if c.Under == "subscription" && hx.Canon(rec2.subArgs) != hx.Canon(rec.subArgs) {
+			fail("literal_variable_agree (Subscribe resolver): the same conformant value gives different arguments as a variable and as an inline literal")
 		}
 	}
 }
@@ -1671,7 +1857,26 @@ func litOrNothing(text string, name string) string {
 	return name + ": " + text
 }
 
+// underEntry moves the observed field of a generated case to another entry point (list parent, subscription root)
+func underEntry(c execCase, base *gq.SchemaDesc, under string) execCase {
+	if under == "" {
+		return c
+	}
+	qf := c.Schema.Type(c.Schema.Query).Fields
+	fd := qf[len(qf)-1]
+	c.Under = under
+	c.Schema = schemaUnder(base, fd, under)
+	c.Query = queryUnder(c.Query, under)
+	c.LitQuery = queryUnder(c.LitQuery, under)
+	return c
+}
+
 func (h *harness) genExec(r *hx.Rng, s *gq.SchemaDesc, idx int) (execCase, map[string]bool) {
+	c, tags := h.genExec0(r, s, idx)
+	return underEntry(c, s, []string{"", "", "list", "list", "subscription"}[r.Intn(5)]), tags
+}
+
+func (h *harness) genExec0(r *hx.Rng, s *gq.SchemaDesc, idx int) (execCase, map[string]bool) {
 	names := inputNames(s)
 	named := names[r.Intn(len(names))]
 	if r.Chance(1, 3) {
